@@ -66,11 +66,12 @@ def instance_1d(repo, family, k):
     nm = '%s_%d' % (family.lower(), k)
     gen = PT.load_tables(repo, PT.FAMILIES[family][2][list(PT.FAMILIES[family][2])[0]])
     if family == 'Hill':
-        rows = ['(%d%%Z, %s, %s)' % (2 * i, r(gen['aHill'][k][i]), r(gen['bHill'][k][i])) for i in range(gen['NUM_HILL_COEFF'])]
+        # table entries are printed exactly as the symbolic evaluation of Calculate prints them (an entry written as an integer stays one)
+        rows = ['(%d%%Z, %s, %s)' % (2 * i, PT.num(gen['aHill'][k][i]), PT.num(gen['bHill'][k][i])) for i in range(gen['NUM_HILL_COEFF'])]
         ty, fam, dfam = 'list (Z * R * R)', 'hill', 'dhill'
         dtree = PT.deriv(f, 0)
     else:
-        rows = ['(%s, %s, %s)' % (r(gen['kShekel'][k][i]), r(gen['aShekel'][k][i]), r(gen['cShekel'][k][i])) for i in range(gen['NUM_SHEKEL_COEFF'])]
+        rows = ['(%s, %s, %s)' % (PT.num(gen['kShekel'][k][i]), PT.num(gen['aShekel'][k][i]), PT.num(gen['cShekel'][k][i])) for i in range(gen['NUM_SHEKEL_COEFF'])]
         ty, fam, dfam = 'list (R * R * R)', 'shekel', 'dshekel'
         dtree = PT.deriv(f, 0)
     scale = max(1.0, abs(v))
